@@ -73,14 +73,14 @@ Lemma create_synth : forall V s nid def args tg act a,
   target_ok s tg = true -> action_number act = Some a ->
   obj_step V s (OSynth SInit nid def args tg act) =
   (add_node s (Some (mkNode (PInt nid) NSynth)),
-   [SMsg (PStr "/s_new" :: PStr def :: PInt nid :: PInt a :: target_id s tg :: oal s (args_or_empty args))], None).
+   [SMsg (PStr "/s_new" :: PStr def :: PInt nid :: PInt a :: target_id s tg :: oal (v_dict_brackets V) s (args_or_empty args))], None).
 Proof. intros V s nid def args tg act a Ht Ha. unfold obj_step. rewrite Ht, Ha. reflexivity. Qed.
 
 Lemma create_synth_paused : forall V s nid def args tg act a,
   target_ok s tg = true -> action_number act = Some a ->
   obj_step V s (OSynth SPaused nid def args tg act) =
   (add_node s (Some (mkNode (PInt nid) NSynth)),
-   [SBundle PNone [PStr "/s_new" :: PStr def :: PInt nid :: PInt a :: target_id s tg :: oal s (args_or_empty args);
+   [SBundle PNone [PStr "/s_new" :: PStr def :: PInt nid :: PInt a :: target_id s tg :: oal (v_dict_brackets V) s (args_or_empty args);
                    [PStr "/n_run"; PInt nid; PInt 0]]], None).
 Proof. intros V s nid def args tg act a Ht Ha. unfold obj_step. rewrite Ht, Ha. reflexivity. Qed.
 
@@ -89,7 +89,7 @@ Lemma create_synth_replace : forall V s nid def args i t same act,
   obj_step V s (OSynth (SReplace same) nid def args (TgNode i) act) =
   (add_node s (Some (mkNode (if same then n_id t else PInt nid) NSynth)),
    [SMsg (PStr "/s_new" :: PStr def :: (if same then n_id t else PInt nid) :: PInt 4 :: n_id t
-          :: oal s (args_or_empty args))], None).
+          :: oal (v_dict_brackets V) s (args_or_empty args))], None).
 Proof. intros V s nid def args i t same act Hg. unfold obj_step. rewrite Hg. reflexivity. Qed.
 
 (* the buffer number of a new Buffer: the caller's, else the allocator's *)
